@@ -1,5 +1,6 @@
 CONFIG = dict(
-    coqfiles=["Props/C02.v"],
+    sub=["C02D"],
+    coqfiles=["Props/C02.v", "Props/C07D.v"],
     n_quick=560, n_thorough=24000, workers_quick=8,
     rule="10 of 12 cases: a persistent store wired as in new_blob_access.go (sector 16/32, 2-4 sectors per block, old 1-2, current 0-2, new 1-2, spare 1-2 blocks, index of 5-31 records with "
          "maximum get attempts 2-8, raw or validating CAS read factory, 4-9 keys with 1-3 content versions of sizes 0, 1, sector-1, sector, sector+1, half block, block...) x a schedule of 18-48 "
